@@ -222,8 +222,9 @@ Fixpoint ocomplex_space (a : obj T) : res (obj T) :=
   end.
 
 (* ------------------------------------------------------------ ProductSpace.__getitem__ *)
-Inductive idx1 := XInt (i : Z) | XSlice (s : pyslice).
-Inductive pidx := PInt (i : Z) | PSlice (s : pyslice) | PList (is : list Z) | PTuple (t : list idx1).
+(* XBad / PBad: an index of any other type (a list inside a tuple; a float, a string ...) *)
+Inductive idx1 := XInt (i : Z) | XSlice (s : pyslice) | XBad.
+Inductive pidx := PInt (i : Z) | PSlice (s : pyslice) | PList (is : list Z) | PTuple (t : list idx1) | PBad.
 
 Definition is_prod (a : obj T) : bool := match a with OProd _ _ _ => true | _ => false end.
 
@@ -256,6 +257,7 @@ Fixpoint getitem_tuple (t : list idx1) (a : obj T) {struct t} : res (obj T) :=
                        then rbind (rall (map (getitem_tuple rest) ss)) (fun ss' => mk_prod ss' (sub_w w) (Some f))
                        else ErrIndex
                 end)
+          | XBad => ErrType
           end
       | _ => ErrType
       end
@@ -269,6 +271,7 @@ Definition ogetitem (a : obj T) (i : pidx) : res (obj T) :=
       | PSlice sl => rbind (select_slice l sl) (fun ss => mk_prod ss (sub_w w) (Some f))
       | PList is_ => rbind (select_list l is_) (fun ss => mk_prod ss (sub_w w) (Some f))
       | PTuple t => getitem_tuple t a
+      | PBad => ErrType
       end
   | _ => ErrType
   end.
